@@ -418,18 +418,54 @@ func genC03(e *emitter) {
 	}
 	// ---- role requesting certificates
 	var roleSources []string
+	roleAssigns := map[string][]string{}
 	for _, fn := range []string{"parseRoleCertGenParams", "parseRefreshRoleCertGenParams"} {
+		roleAssigns[fn] = []string{}
 		if fd := kmd.funcs[fn]; fd != nil {
-			ast.Inspect(fd.Body, func(n ast.Node) bool {
-				if as, ok := n.(*ast.AssignStmt); ok {
-					for i, l := range as.Lhs {
-						if sel, ok := l.(*ast.SelectorExpr); ok && sel.Sel.Name == "Duration" && i < len(as.Rhs) {
-							roleSources = append(roleSources, fn+": "+kmd.str(as.Rhs[i]))
+			// classify every assignment to <x>.Duration, in source order; remember an enclosing `if v > 0`
+			var walk func(n ast.Node, guard string)
+			walk = func(n ast.Node, guard string) {
+				ast.Inspect(n, func(m ast.Node) bool {
+					if is, ok := m.(*ast.IfStmt); ok && m != n {
+						g := ""
+						if be, ok := is.Cond.(*ast.BinaryExpr); ok && be.Op == token.GTR && kmd.str(be.Y) == "0" && is.Init == nil {
+							g = kmd.str(be.X)
+						} else {
+							g = "?" + kmd.str(is.Cond)
+						}
+						walk(is.Body, g)
+						if is.Else != nil {
+							walk(is.Else, "?else")
+						}
+						return false
+					}
+					if as, ok := m.(*ast.AssignStmt); ok {
+						for i, l := range as.Lhs {
+							if sel, ok := l.(*ast.SelectorExpr); ok && sel.Sel.Name == "Duration" && i < len(as.Rhs) {
+								rhs := kmd.str(as.Rhs[i])
+								roleSources = append(roleSources, fn+": "+rhs)
+								cls := "unknown"
+								if rhs == "maxRoleRequestingCertDuration" && guard == "" {
+									cls = "maxConst"
+								} else if id, ok := as.Rhs[i].(*ast.Ident); ok {
+									defs := c03Assigned(kmd, fd, id.Name)
+									if len(defs) == 1 && (defs[0] == "userCert.NotAfter.Sub(userCert.NotBefore)") &&
+										len(c03Assigned(kmd, fd, "userCert")) == 1 && c03Assigned(kmd, fd, "userCert")[0] == "r.TLS.VerifiedChains[0][0]" {
+										if guard == "" {
+											cls = "presented"
+										} else if guard == id.Name {
+											cls = "presentedIfPositive"
+										}
+									}
+								}
+								roleAssigns[fn] = append(roleAssigns[fn], cls)
+							}
 						}
 					}
-				}
-				return true
-			})
+					return true
+				})
+			}
+			walk(fd.Body, "")
 		}
 	}
 	flow["roleDurationSources"] = roleSources
@@ -479,6 +515,21 @@ func genC03(e *emitter) {
 		awsMut += c03FieldWrites(kmd, fd, "NotBefore", "NotAfter")
 		flow["awsCreateTemplateArg"] = c03CallArg(kmd, fd, "x509.CreateCertificate", 1)
 	}
+	leanAssigns := func(l []string) string {
+		q := make([]string, len(l))
+		for i, c := range l {
+			switch c {
+			case "maxConst", "presented", "presentedIfPositive":
+				q[i] = "RoleAssign." + c
+			default:
+				q[i] = "RoleAssign.unknown"
+			}
+		}
+		return "[" + strings.Join(q, ", ") + "]"
+	}
+	fmt.Fprintf(&b, "\n/-- assignments to `Duration` in the two role parameter parsers, in source order -/\ndef roleHandlerDur : List RoleAssign := %s\ndef roleRefreshDur : List RoleAssign := %s\n",
+		leanAssigns(roleAssigns["parseRoleCertGenParams"]), leanAssigns(roleAssigns["parseRefreshRoleCertGenParams"]))
+	facts["roleAssigns"] = roleAssigns
 	facts["awsTemplateLifetime"] = awsLifetime
 	facts["flow"] = flow
 	fmt.Fprintf(&b, "\n/-- `NotAfter: now.Add(<this>)` in aws_identity_cert.makeCertificateTemplate, nanoseconds (-1: not found) -/\ndef awsTemplateLifetime : Int := %d\n", awsLifetime)
